@@ -21,7 +21,7 @@ STATE_TAGS = ('state', 'parallel', 'final', 'history', 'initial', 'transition')
 CONTAINER = ('onentry', 'onexit', 'finalize')
 EXEC = ('raise', 'if', 'elseif', 'else', 'foreach', 'log', 'send', 'assign', 'script', 'cancel')
 SWITCHES = ['getstates_null', 'any_parallel_ancestor', 'root_initial_unchecked', 'initial_target_optional',
-            'id_required', 'nesting_warning_only', 'empty_initial_unchecked']
+            'id_required', 'nesting_warning_only', 'empty_initial_unchecked', 'hist_pseudo_target_unchecked']
 
 
 # ------------------------------------------------------------------ documents
@@ -127,6 +127,7 @@ MSG = {
     'HistNoTarget': "Transition in history pseudo-state '%s' has no target",
     'HistDeepIllegal': "Transition in deep history pseudo-state '%s' has illegal target state '%s'",
     'HistShallowIllegal': "Transition in shallow history pseudo-state '%s' has illegal target state '%s'",
+    'HistPseudoTarget': "Transition in history pseudo-state '%s' has illegal target state '%s'",
     'Unreachable': "State with id '%s' is unreachable",
     'Duplicate': "Duplicate state with id '%s'",
     'TransEmptyTargets': "Transition has empty target state list",
@@ -380,6 +381,15 @@ def inject(doc):
         variant('history-no-target', add_kid(p, h([tr(None, None)])))
         variant('history-dangling', add_kid(p, h([tr('s99', None)])))
         variant('history-no-id', add_kid(p, E('history', [], [tr(first, None)])))
+        # the default transition names a pseudo-state: the history itself, a second history (whose default names the first),
+        # an <initial id=..> element; with a transition into the history so that the engines go through the default
+        go_h = use if props[-1][0] != 'final' else (lambda d: None)
+        variant('history-default-self', both(add_kid(p, h([tr('s50', None)])), go_h))
+        variant('history-default-self-deep', both(add_kid(p, h([tr('s50', None)], True)), go_h))
+        variant('history-default-history', both(add_kid(p, E('history', [('id', 's51')], [tr('s50', None)])), add_kid(p, h([tr('s51', None)])), go_h))
+        variant('history-default-history-valid', both(add_kid(p, E('history', [('id', 's51')], [tr(first, None)])), add_kid(p, h([tr('s51', None)])), go_h))
+        if e[0] == 'state':
+            variant('history-default-initial-el', both(add_kid(p, E('initial', [('id', 's52')], [tr(first, None)])), add_kid(p, h([tr('s52', None)])), go_h))
         for x in other[:3]:
             variant('history-shallow-scope', add_kid(p, h([tr(x, None)])))
         for x in deepd[:2]:
@@ -511,6 +521,7 @@ WITNESS = {
     'id_required': scxml([E('state', [], [tr('s2')]), st(2)]),
     'nesting_warning_only': scxml([st(1, [E('datamodel', [], [st(2)]), tr('s2')])]),
     'empty_initial_unchecked': scxml([st(1)], [('initial', '')]),
+    'hist_pseudo_target_unchecked': scxml([st(1, [E('history', [('id', 's2')], [tr('s2', None)]), st(3, [tr('s2')])])]),
 }
 
 
@@ -536,6 +547,8 @@ def impl_vector(vd):
             vec[n] = 1 if any(s == 0 and m == MSG['NoId'] for s, m, _ in issues) else 0
         elif n == 'empty_initial_unchecked':
             vec[n] = 1 if fatal == 0 else 0
+        elif n == 'hist_pseudo_target_unchecked':
+            vec[n] = 0 if any(s == 0 and m == MSG['HistPseudoTarget'] % ('s2', 's2') for s, m, _ in issues) else 1
         elif n == 'nesting_warning_only':
             sv = [s for s, m, _ in issues if RE_NEST.match(m)]
             vec[n] = 1 if (sv and sv[0] == 1) else 0
